@@ -131,6 +131,7 @@ package kvql
 //
 //@ func (p *Parser) parseUnaryExpr() (ret Expression, err error)
 //@   props C15 C17
+//@   ensures[C15] not: err == nil && old(p.tok) != nil && old(p.tok).Tp == OPERATOR && opIs(old(p.tok), "!") ==> is(ret, *NotExpr) && as(ret, *NotExpr).Right != nil
 //@   ensures[C17] errpos: errAtToken(p, err)
 //@   requires wfParser(p)
 //@   assigns p.tok, p.pos, p.nestLev, p.exprLev
